@@ -80,6 +80,7 @@ class InterpBase:
         self.objc = itertools.count(1)
         self.symc = itertools.count(1)
         self.evc = itertools.count(1)      # order of logged stores / raises
+        self.module_oids = set()           # ids of objects created at module level (shared between calls)
         self.handler_excs = []             # exception classes the enclosing handler bodies have caught (for a bare raise)
         self.obj_info = {}
         self.depth = 0
@@ -304,10 +305,15 @@ class InterpBase:
         key = (mod, id(expr))
         if key not in self.const_cache:
             self.quiet += 1
+            first = self.next_oid()
             try:
                 self.const_cache[key] = self.ev(expr, Env(), mod, None)
             finally:
                 self.quiet -= 1
+                # objects built while a module-level name is evaluated exist once per process: they are shared by
+                # every call that reaches them
+                for oid in range(first, self.next_oid()):
+                    self.module_oids.add(oid)
         return self.const_cache[key]
 
     def enum_member(self, clsq, name):
